@@ -184,3 +184,6 @@ _r3("C12", "fold-invariant coordinate-ascent proof over the loop skeleton (Proof
 _r3("C18", "the Python layer regenerated too (translator/tr_infopy.py: joint_counts, mutual_information, _validate_feature_states_array, channel_capacity_normalization, mi_matrix, weighted_mi, shannon_entropy, kl_divergence 1-D/2-D -> Gen/MutualInfoGen.v, Gen/EntropyGen.v over Base/InfoPyBase.v), each proved equal to the model for all inputs; the correspondence also evaluates the regenerated joint_counts, pooling loop and divisor grid in Coq",
     "the whole information-theory layer of the anchors (Cython kernel and Python layer) is regenerated from /repo and tied to the model by all-input equalities, and the MI/KL laws are also stated on the generated text (89 theorems).",
     "trusted: the NumPy semantics written down in Base/InfoPyBase.v (axes/broadcast, masked ufuncs, promote_types/astype - exercised against NumPy by the jc stream over all 64 dtype pairs - and IEEE nan/inf rules); np.bincount's ValueError on negative ids and np.vstack's on ragged rows not modelled; mi_matrix_serial and the NMI/APC helpers not covered.")
+_r3("C04", "eq_probs' ARPACK handling (stationarity guard and the ArpackNoConvergence handler, both falling back to the dense solver) regenerated as a `try_noconv` combinator and proved",
+    "for sparse T the result is the dense solver's vector whenever ARPACK fails to converge or returns a non-stationary vector; for dense T nothing changes; other solver failures are raised (53 theorems).",
+    "")
